@@ -74,7 +74,9 @@ def _job(v):
     if "place" in want and v in want["place"]:
         q2 = _qr_with_clone(pe, qr)
         pe.calls_seen = {}
-        cq = ("adt", "compact::CompactQR", 0, "CompactQR", (fold.mk_int("usize", 0), ("symvec",)))
+        # the bit string placement::create_matrix hands over: 8 x total codewords + remainder bits long (C01.R2 checks that hand-off)
+        nbits = 8 * ref.total_codewords(v) + ref.remainder_bits(v)
+        cq = ("adt", "compact::CompactQR", 0, "CompactQR", (fold.mk_int("usize", nbits), ("symvec",)))
         r2 = pe.run("placement::place_on_matrix_data", [("cell", 0), ("ref", ("const", cq))], cells=[q2])
         if r2.kind != "ret":
             out["place"] = {"status": (r2.kind, r2.why)}
@@ -83,15 +85,35 @@ def _job(v):
             out["place"] = {"status": ("ret", None), "after": cells, "default": d, "calls": sorted(pe.calls_seen)}
     if "masks" in want and v in want["masks"]:
         res = {}
+        # the value bit of every module is a free symbol (its own coordinate): the result shows, per module, whether the sweep
+        # negates it - for every payload at once; a sweep that consults a value either merges back or is refused
+        n_ = g["size"]
+        base = _qr_with_clone(pe, qr)
+        hb = base[4][0]
+        for i in range(n_ * n_):
+            b = g["cells"].get(i, g["default"])
+            pe.heap.put(hb, i, ("adt", "module::Module", 0, "Module", (("tagint", "u8", b & ~1, (i // n_, i % n_, bool(b & 1))),)))
         for mk in ref.MASKS:
-            q2 = _qr_with_clone(pe, qr)
+            q2 = _qr_with_clone(pe, base)
             pe.calls_seen = {}
             r2 = pe.run("datamasking::mask", [("cell", 0), mk_enum(MASK, mk)], cells=[q2])
             if r2.kind != "ret":
                 res[mk] = {"status": (r2.kind, r2.why)}
                 continue
-            g2 = _grid(pe, r2.cells[0])
-            res[mk] = {"status": ("ret", None), "after": g2["cells"], "calls": sorted(pe.calls_seen)}
+            sz, cells, d, ln = peval.matrix_sym(pe, r2.cells[0])
+            after = {}
+            for i, (b, tag) in cells.items():
+                if i >= n_ * n_:
+                    after[i] = ("outside", b, tag)
+                    continue
+                b0 = g["cells"].get(i, g["default"])
+                if tag is None:
+                    after[i] = ("const", b, None)  # the module lost its symbol: overwritten with a constant
+                elif (tag[0], tag[1]) != (i // n_, i % n_):
+                    after[i] = ("moved", b, tag)
+                else:
+                    after[i] = ("sym", b | (b0 & 1), tag[2] != bool(b0 & 1))  # (label bits kept?, negated?)
+            res[mk] = {"status": ("ret", None), "after": after, "calls": sorted(pe.calls_seen)}
         out["masks"] = res
     return out
 
@@ -401,25 +423,29 @@ def c08_r4(ctx, f, tbl=None, rid="C08.R4"):
             k = discr.get(mk)
             after = r["after"]
             wrong = []
+            ndata = 0
             for rr in range(n):
                 for cc in range(n):
                     i = rr * n + cc
                     b0 = g["cells"].get(i, g["default"])
-                    b1 = after.get(i, g["default"])
                     lab0, v0 = dec(b0)
-                    lab1, v1 = dec(b1)
+                    kind, b1, neg = after.get(i, ("sym", b0, False))
+                    if kind != "sym":
+                        wrong.append(((rr, cc), "module %s" % kind, lab0, str(neg)))
+                        continue
+                    lab1 = dec(b1)[0]
                     if lab0 != lab1:
                         wrong.append(((rr, cc), "label changed", lab0, lab1))
                     elif lab0 == ref.DATA:
+                        ndata += 1
                         exp = ref.mask_cond(k, rr, cc) if k is not None else None
-                        if (v1 != v0) is not exp:
-                            wrong.append(((rr, cc), "data module", "toggled" if exp else "kept", "toggled" if v1 != v0 else "kept"))
-                    elif v0 is not v1:
-                        wrong.append(((rr, cc), "function module toggled", lab0, (v0, v1)))
+                        if neg is not exp:
+                            wrong.append(((rr, cc), "data module", "toggled" if exp else "kept", "toggled" if neg else "kept"))
+                    elif neg:
+                        wrong.append(((rr, cc), "function module toggled", lab0, "toggled"))
             outside = [i for i in after if i >= n * n]
             if not wrong and not outside:
-                ctx.ok(rid, "%s: pattern %s toggles exactly the ISO set on %d data modules" % (
-                    inst, k, sum(1 for b in g["cells"].values() if dec(b)[0] == ref.DATA) + n * n - len(g["cells"])))
+                ctx.ok(rid, "%s: pattern %s negates exactly the ISO set on %d data modules, whatever their values" % (inst, k, ndata))
             else:
                 kind = wrong[0][1].replace(" ", "_") if wrong else "store_outside_the_square"
                 groups.add("%s/%s" % (mk, kind), name, [(w[0], w[2]) for w in wrong[:4]],
@@ -427,15 +453,6 @@ def c08_r4(ctx, f, tbl=None, rid="C08.R4"):
     groups.emit(ctx, rid, "datamasking::mask", where_fn(fn), fn.path,
                 "the sweep for this mask does not toggle exactly the data modules satisfying its ISO Table 10 condition, or changes a "
                 "function module (first offending modules of the first configuration shown)")
-    # value-independence: the sweeps may read a module only through its label
-    extra = sorted(c for c in seen_callees if (c.startswith("module::") or c.startswith("<module::") or c.startswith("<qr::")
-                                               or c.startswith("qr::")) and c not in SWEEP_CALLEES_OK)
-    ctx.check(rid, not extra, "datamasking::mask/value-independence", where_fn(fn), fn.path, "callees of the sweeps",
-              "a mask sweep consults something other than a module's label (so the toggled set could depend on the payload)",
-              found=extra, sample="sweeps call only index_mut / module_type / toggle / ModuleType::eq")
-    reads = _direct_module_reads(f, [p for p in f.fns if p.startswith("datamasking::")])
-    ctx.check(rid, not reads, "datamasking/direct-field-read", where_fn(fn), fn.path, "field reads of Module in datamasking",
-              "a mask sweep reads the raw module byte directly", found=reads[:4], sample="no direct read of Module.0 in datamasking::*")
     ctx.floor(rid, "(version, mask) sweeps evaluated", runs, 8 * len(versions))
 
 
